@@ -17,9 +17,14 @@
    F_stmt: int locals (declaration, assignment, compound assignment) with right-hand sides in the
    int-operand fragment of LowerBoolModel; bool locals with boolean right-hand sides; if / else;
    while / for with break and continue; nested blocks with their own locals; write(b) for a byte
-   literal, a char literal or `(e is byte)`; writeln().  Locals are numbered in declaration order
-   per kind (int / bool); a block's locals disappear at its end and their numbers and slots are
-   reused. *)
+   literal, a char literal or `(e is byte)`; writeln(); write / writeln of an int or a bool (runtime
+   library); a division at the root of an int initialiser / right-hand side (`int x = a / b`,
+   `x %= b`: checked build, division guard); calls of the program's functions as statements,
+   initialisers and right-hand sides (eval_func_call); `return;` / `return e;`.  Locals are numbered
+   in declaration order per kind (int / bool); a block's locals disappear at its end and their
+   numbers and slots are reused.
+   Whole programs (end of the file): gen_func (label, entry stack guard, body), the generation
+   order of functions (label_for_func / make_funcs), gen_lines (state section, code section). *)
 From Coq Require Import ZArith List Bool Lia String.
 From HidV Require Import Machine GenTables OpTables DecimalSpec LowerBoolModel.
 Import ListNotations.
@@ -225,6 +230,8 @@ with lower_stmts (S : senv) (li : option (label * label)) (ss : stmts) (st : lst
       else let '(cr, S2, st2, ex2) := lower_stmts S1 li r st1 in (c ++ cr, S2, st2, ex2)
   end.
 
+Fixpoint stmts_snoc (ss : stmts) (s : stmt) : stmts :=
+  match ss with SNil => SCons s SNil | SCons x r => SCons x (stmts_snoc r s) end.
 (* the body of `empty f(...) { ss }`: the statements, then the implicit `return;`
    (return_address.get(r1); reset_ap(0) emits nothing; goto(ra)) unless the statements exited *)
 Definition lower_body (S : senv) (ss : stmts) (st : lstate) : list aline * lstate :=
